@@ -40,7 +40,10 @@ class Rand:
         return v
 
     def random(self):
-        return 0.5
+        # an implementation may draw its initial timeout from random() as well: same fractions
+        f = self.fractions.pop(0) if self.fractions else 0.0
+        self.random_calls = getattr(self, "random_calls", 0) + 1
+        return f
 
 
 class _RandFor:
@@ -54,6 +57,9 @@ class _RandFor:
 
     def uniform(self, a, b):
         return self._r.uniform(a, b)
+
+    def random(self):
+        return self._r.random()
 
     def __getattr__(self, name):
         import random
